@@ -712,8 +712,17 @@ func (fr *Frame) backEdge(st *State, li *loopInfo, run *loopRun, from *ssa.Basic
 	if spec != nil {
 		sc := fr.loopScope(st, run.hdr.alloc)
 		for i, inv := range spec.Invariants {
-			g := fr.evalBool(sc, inv.E)
-			fr.oblige(st, "inv-preserved", lname+"."+clauseName(inv, i), g, inv, pos)
+			parts := SplitConj(inv.E)
+			for k, p := range parts {
+				g := fr.evalBool(sc, p)
+				name := lname + "." + clauseName(inv, i)
+				if len(parts) > 1 {
+					name = fmt.Sprintf("%s.%d", name, k+1)
+				}
+				ci := *inv
+				ci.Text = ExprString(p)
+				fr.oblige(st, "inv-preserved", name, g, &ci, pos)
+			}
 		}
 		if spec.HasMod {
 			fr.frameObligations(st, run.preHeaps, run.hdr.alloc, run.targets, "loop-frame", lname, pos)
